@@ -13,6 +13,19 @@ V = lambda x: ('v', x)
 C = lambda f, *a: ('c', f, list(a))
 
 
+
+# the documented carriers of the tail slot outside the core model: (name, function text, closed form of t(n, 0))
+CARRIERS = [
+    ("cast", "fn t(n: int, acc: int)->int{ if(n == 0, acc, cast<int>(t(n - 1, acc + n))) }", lambda n: f"(int S {n * (n + 1) // 2})"),
+    ("tuple-and", "fn t(n: int, acc: int)->int{ if(n == 0, acc, ().and(t(n - 1, acc + n))) }", lambda n: f"(int S {n * (n + 1) // 2})"),
+    ("optional-or", "fn t(n: int, acc: int)->int{ if(n == 0, acc, none().or(t(n - 1, acc + n))) }", lambda n: f"(int S {n * (n + 1) // 2})"),
+    ("optional-map_or", "fn t(n: int, acc: int)->int{ if(n == 0, acc, none().map_or((x: int)->{x}, t(n - 1, acc + n))) }", lambda n: f"(int S {n * (n + 1) // 2})"),
+    ("optional-and", "fn t(n: int, acc: int)->Optional<int>{ if(n == 0, some(acc), some(0).and(t(n - 1, acc + n))) }", lambda n: f"(some (int S {n * (n + 1) // 2}))"),
+    ("optional-or-operator", "fn t(n: int, acc: int)->int{ if(n == 0, acc, none() || t(n - 1, acc + n)) }", lambda n: f"(int S {n * (n + 1) // 2})"),
+    ("optional-and-operator", "fn t(n: int, acc: int)->Optional<int>{ if(n == 0, some(acc), some(0) && t(n - 1, acc + n)) }", lambda n: f"(some (int S {n * (n + 1) // 2}))"),
+    ("if_error-specific", 'fn t(n: int, acc: int)->int{ if(n == 0, acc, if_error(error("boom"), "boo", t(n - 1, acc + n))) }', lambda n: f"(int S {n * (n + 1) // 2})"),
+]
+
 def templates():
     """(name, is_tail, decls builder taking n) — f(n, acc) counts n down accumulating acc+n"""
     base = C('eq', V('n'), I(0))
@@ -109,14 +122,7 @@ def run(chk):
         chk.sample({"program": c.src, "limits": {"depth": c.depth, "rec": c.rec, "calls": c.calls}, "impl": ci})
     # ---- the other documented carriers of the tail slot (cast, tuple `and`, optional or / map_or / and, to_str of a str):
     #      outside the core model; implementation vs closed form, under a depth limit far below the iteration count
-    carriers = [
-        ("cast", "fn t(n: int, acc: int)->int{ if(n == 0, acc, cast<int>(t(n - 1, acc + n))) }", lambda n: f"(int S {n * (n + 1) // 2})"),
-        ("tuple-and", "fn t(n: int, acc: int)->int{ if(n == 0, acc, ().and(t(n - 1, acc + n))) }", lambda n: f"(int S {n * (n + 1) // 2})"),
-        ("optional-or", "fn t(n: int, acc: int)->int{ if(n == 0, acc, none().or(t(n - 1, acc + n))) }", lambda n: f"(int S {n * (n + 1) // 2})"),
-        ("optional-map_or", "fn t(n: int, acc: int)->int{ if(n == 0, acc, none().map_or((x: int)->{x}, t(n - 1, acc + n))) }", lambda n: f"(int S {n * (n + 1) // 2})"),
-        ("optional-and", "fn t(n: int, acc: int)->Optional<int>{ if(n == 0, some(acc), some(0).and(t(n - 1, acc + n))) }", lambda n: f"(some (int S {n * (n + 1) // 2}))"),
-        ("if_error-specific", 'fn t(n: int, acc: int)->int{ if(n == 0, acc, if_error(error("boom"), "boo", t(n - 1, acc + n))) }', lambda n: f"(int S {n * (n + 1) // 2})"),
-    ]
+    carriers = CARRIERS
     creqs, cmeta = [], []
     for name, fn, want in carriers:
         for n in [0, 1, 2, 10, 1000] + ([] if quick else [50000]):
